@@ -75,13 +75,13 @@ structure OpResult where
   deriving DecidableEq, Repr
 
 /-- `decode_OP_PUSHDATA(script, pc)` of `coins/bitcoin/ScriptStreamer.py`: `(size, pc)`.
-`struct.unpack` raises when fewer than `width` bytes are left; the code then returns `(0, pc)`. -/
-def decodePushdata (script : Bytes) (pc width : Nat) (bigEndian : Bool) : Nat × Nat :=
+`struct.unpack` raises when fewer than `width` bytes are left; the code then returns `(None, pc)`. -/
+def decodePushdata (script : Bytes) (pc width : Nat) (bigEndian : Bool) : Option Nat × Nat :=
   let pc := pc + 1
   let field := slice script pc (pc + width)
   if field.length = width then
-    ((if bigEndian then beNat field else leNat field), pc + width)
-  else (0, pc)
+    (some (if bigEndian then beNat field else leNat field), pc + width)
+  else (none, pc)
 
 /-- `make_sized_handler(size, const_values, …)`: `(new pc, data)`; `data = none` is Python's `None` -/
 def sizedHandler (size : Nat) (script : Bytes) (pc : Nat) (verifyMinimalData : Bool) : Except Err (Nat × Option Bytes) :=
@@ -95,12 +95,14 @@ def sizedHandler (size : Nat) (script : Bytes) (pc : Nat) (verifyMinimalData : B
 def variableHandler (width : Nat) (bigEndian : Bool) (minSize : Nat) (script : Bytes) (pc : Nat)
     (verifyMinimalData : Bool) : Except Err (Nat × Option Bytes) :=
   let sp := decodePushdata script pc width bigEndian
-  let size := sp.1
   let pc := sp.2
-  let data := slice script pc (pc + size)
-  if data.length < size then .ok (pc + 1, none)
-  else if verifyMinimalData && (decide (size ∈ variableSizedValues) || decide (size ≤ minSize)) then .error .scriptError
-  else .ok (pc + size, some data)
+  match sp.1 with
+  | none => .ok (pc + 1, none)                       -- `if size is None: return pc + 1, None`
+  | some size =>
+    let data := slice script pc (pc + size)
+    if data.length < size then .ok (pc + 1, none)
+    else if verifyMinimalData && (decide (size ∈ variableSizedValues) || decide (size < minSize)) then .error .scriptError
+    else .ok (pc + size, some data)
 
 /-- the handler stored in `self.decoder[opcode]` -/
 def runHandler : Handler → Bytes → Nat → Bool → Except Err (Nat × Option Bytes)
@@ -142,8 +144,10 @@ theorem runHandler_pc_lt {h : Handler} {script : Bytes} {pc : Nat} {vm : Bool} {
     split at hr
     · cases hr; simp; omega
     · split at hr
-      · cases hr
       · cases hr; simp; omega
+      · split at hr
+        · cases hr
+        · cases hr; simp; omega
 
 /-- every handler moves the program counter forward -/
 theorem getOpcode_pc_lt {script : Bytes} {pc : Nat} {vm : Bool} {r : OpResult}
